@@ -72,12 +72,12 @@ def fills(s):
     }
 
 
-def stores_of(tree, ctx=()):
+def stores_of(tree, ctx=(), aff=None):
     """flatten: [(loops [(counter, T)], base, index, value, loc)]; other items are returned separately"""
     out, other = [], []
     for t in tree:
         if t[0] == 'loop':
-            a, b = stores_of(t[3], ctx + ((t[1], t[2]),))
+            a, b = stores_of(t[3], ctx + ((t[1], t[2]),), aff)
             out += a
             other += b
         elif t[0] == 'store':
@@ -91,9 +91,7 @@ def stores_of(tree, ctx=()):
 
 def analyse(ctx, fn, facts=()):
     mod = fn.module
-    a = scev.Aff(fn, facts=list(facts), lookup=lambda n: mod.functions.get(n))
-    tree = a.emit()
-    return a, tree
+    return scev.emit_pruned(lambda: scev.Aff(fn, facts=list(facts), lookup=lambda n: mod.functions.get(n)))
 
 
 def syms(a):
